@@ -125,6 +125,13 @@ def run_check(prop, argv):
     t0 = time.time()
     R = random.Random(SEED * 1000003 + int(hashlib.sha1(pid.encode()).hexdigest()[:6], 16))
     info = core.build_model(pid)
+    # source pins: the items of /repo/src this property's hand-written model was transcribed from; a changed item reopens the obligation "model = code"
+    pins_changed = core.source_pins(pid)
+    info['pins_changed'] = pins_changed
+    if pins_changed and info['proof_ok']:
+        info['proof_ok'] = False
+        info['broken'] = ('source pin: ' + '; '.join(pins_changed[:6]) + (' ...' if len(pins_changed) > 6 else '') +
+                          ' changed since the model of %s was transcribed from it and validated (tools/pins.json); the theorems of Props/%s.v still check, about the model of the earlier text' % (pid, pid))
     binaries = {}
     for v in prop.variants:
         bpath, err = core.build_harness(v)
@@ -182,16 +189,25 @@ def run_check(prop, argv):
         if not replaying:
             R2 = random.Random(SEED + 7919)
             extra = prop.search(R2)
+            if pins_changed:
+                # the text changed under a model that still builds: look wider (two more generator seeds), with the model kept on so that a differing input is named too
+                for k in (1, 2):
+                    extra = extra + prop.gen('quick', random.Random((SEED + 104729 * k) * 1000003 + 17))
             searched = len(extra)
-            recs2 = evaluate(prop, extra, dict(info, model_ok=False), binaries)
-            _, of2, _ = judge(prop, recs2)
+            recs2 = evaluate(prop, extra, info if (pins_changed and info['model_ok']) else dict(info, model_ok=False), binaries)
+            dis2, of2, _ = judge(prop, recs2)
             if of2:
                 found = smallest(of2)
+            elif dis2 and prop.k_is_o:
+                r, diff = smallest(dis2)
+                found = (r, 'implementation differs from the definition on ' + str(diff))
+            elif dis2 and not disagreements:
+                disagreements = dis2
         if found:
             r, why = found
             path = write_replay(pid, {'property': pid, 'kind': 'oracle-failure-found-by-search', 'why': why, 'case': r['line'], 'variant': r['variant'],
                                       'readable': prop.describe(r['line']), 'implementation': r['impl_raw'],
-                                      'broken': info.get('broken'), 'coqc': info.get('log_tail')})
+                                      'model': r.get('model_k'), 'broken': info.get('broken'), 'coqc': info.get('log_tail')})
             violation = (path, '', f"{why}: {prop.describe(r['line'])}")
         else:
             d0 = smallest(disagreements) if disagreements else None
@@ -204,6 +220,8 @@ def run_check(prop, argv):
             path = write_replay(pid, payload)
             what = ('theorem ' + str(info.get('broken'))) if proof_broken else ('model build' if model_broken else 'correspondence on ' + d0[1])
             msg = f"{what} no longer checks"
+            if proof_broken and str(info.get('broken')).startswith('source pin'):
+                msg = 'the obligation "model = code" is open - ' + str(info.get('broken'))
             if d0:
                 msg += f"; first disagreement: {prop.describe(d0[0]['line'])}\n   impl : {str(d0[0]['impl_k'])[:300]}\n   model: {str(d0[0]['model_k'])[:300]}"
             violation = (path, ' no-failing-input-found', msg)
@@ -226,7 +244,7 @@ def run_check(prop, argv):
     impl_ks = [r['impl_k'] for r in recs if r['impl_k'] is not None]
     distinct = len(set(k for r, k in ((r, r['impl_k']) for r in recs) if k is not None and prop.nontrivial(r['line'], k)))
     nthm = len(info['theorems'])
-    obligations = nthm + 2
+    obligations = nthm + 3  # + model build, correspondence, source pins
     cov = {
         'obligations': obligations, 'discharged': obligations if info['proof_ok'] else 0,
         'checker_cmd': f'make -C coq Props/{pid}.vo Extract.vo (coqc 8.16.1, full .vo build) + Print Assumptions allowlist + forbidden-vernacular scan',
@@ -238,7 +256,7 @@ def run_check(prop, argv):
         'correspondence_disagreements': len(disagreements), 'oracle_failures': len(oracle_fail),
         'known_finding_cases': {k: len(v) for k, v in allk.items()}, 'searched_cases_after_break': searched,
         'samples': [prop.describe(r['line']) + '  =>  ' + str(r['impl_raw'])[:200] for r in (recs[:2] + recs[len(recs) // 2:len(recs) // 2 + 2] + recs[-2:])],
-        'build_s': info.get('build_s'),
+        'build_s': info.get('build_s'), 'source_pins_changed': pins_changed,
     }
     cov.update(getattr(prop, 'extra_cov', {}) or {})
     ev = {'property_id': pid, 'tier': tier, 'seed': SEED, 'level': prop.level, 'wall_s': round(time.time() - t0, 2), 'violations': 1 if violation else 0,
